@@ -320,6 +320,65 @@ Fixpoint query (k : nat) (h : heap) (c : clos) (path : list string)
   | (OOF, cf, k') => (OOF, (stack cf, hp cf, k'))
   end.
 
+(* `Program::eval_record_spine` (program.rs: [eval_guarded] / [do_eval]): evaluate thunk [l] to a
+   weak head normal form and, if it is a record, its fields in turn, recursively.  To stop on
+   recursive structures the thunk is [lock]ed while its children are evaluated; a thunk found
+   locked is returned unevaluated ([DThunk]).  The thunk is unlocked when [do_eval] returns,
+   whether it succeeded or failed ([unlock_on_err = true]; [false] is the broken variant that
+   forgets the error path).  Every [do_eval] uses its own VM, dropped (unwound by [unw]) as soon
+   as its evaluation returns. *)
+Fixpoint spine_with (unlock_on_err : bool) (unw : list frame -> heap -> heap)
+         (d k : nat) (h : heap) (l : loc) : res data * (heap * nat) :=
+  match d with
+  | 0 => (OOF, (h, k))
+  | S d' =>
+      match nth_error h l with
+      | None => (Err EPanic, (h, k))
+      | Some cl =>
+          if locked cl then (Val DThunk, (h, k))
+          else
+            let h1 := upd_nth h l (set_locked true) in
+            let res :=
+              match run k (mkcfg (ptr l) [] h1) with
+              | (Val w, cf, k') =>
+                  match fst w with
+                  | CTm (Num n) => (Val (DNum n), (hp cf, k'))
+                  | CTm (Bool b) => (Val (DBool b), (hp cf, k'))
+                  | CRecV fl =>
+                      match
+                        (fix fields (fl : list (string * loc)) (h : heap) (k : nat)
+                           : res (list (string * data)) * (heap * nat) :=
+                           match fl with
+                           | [] => (Val [], (h, k))
+                           | (f, lf) :: fl' =>
+                               match spine_with unlock_on_err unw d' k h lf with
+                               | (Val dv, (h1, k1)) =>
+                                   match fields fl' h1 k1 with
+                                   | (Val ds, x) => (Val ((f, dv) :: ds), x)
+                                   | r => r
+                                   end
+                               | (Err e, x) => (Err e, x)
+                               | (OOF, x) => (OOF, x)
+                               end
+                           end) fl (hp cf) k'
+                      with
+                      | (Val ds, x) => (Val (DRec ds), x)
+                      | (Err e, x) => (Err e, x)
+                      | (OOF, x) => (OOF, x)
+                      end
+                  | _ => (Val DFun, (hp cf, k'))
+                  end
+              | (Err e, cf, k') => (Err e, (unw (stack cf) (hp cf), k'))
+              | (OOF, cf, k') => (OOF, (unw (stack cf) (hp cf), k'))
+              end in
+            match res with
+            | (r, (h2, k2)) =>
+                let unlock := match r with Val _ => true | _ => unlock_on_err end in
+                (r, ((if unlock then upd_nth h2 l (set_locked false) else h2), k2))
+            end
+      end
+  end.
+
 (* ---------------------------------------------------------------- sessions *)
 
 Record session := mksess { sheap : heap; stop : menv }.
@@ -329,7 +388,8 @@ Inductive input :=
 | IDef (x : string) (e : tm)                         (* let x = e        *)
 | IEval (k : nat) (e : tm)                           (* e                 (budget k) *)
 | IFull (k : nat) (e : tm)                       (* :print e          (budget k) *)
-| IQuery (k : nat) (x : string) (path : list string). (* :query x.p1...pn  (budget k) *)
+| IQuery (k : nat) (x : string) (path : list string) (* :query x.p1...pn  (budget k) *)
+| ISpine (k : nat) (e : tm).                        (* eval_record_spine of e (budget k) *)
 
 (* An evaluation abandoned after [k] steps is an evaluation whose budget is [k]. *)
 Definition Abort (k : nat) (e : tm) : input := IEval k e.
@@ -338,7 +398,7 @@ Definition out_of {A} (f : A -> outcome) (r : res A) : outcome :=
   match r with Val a => f a | Err e => OErr e | OOF => OBudget end.
 
 (* One REPL input.  [unw] is what dropping the VM does ([unwind], or [unwind_broken]). *)
-Definition sess_step_with (unw : list frame -> heap -> heap) (s : session) (i : input)
+Definition sess_step_gen (unlock_on_err : bool) (unw : list frame -> heap -> heap) (s : session) (i : input)
   : session * outcome :=
   match i with
   | IDef x e =>
@@ -355,9 +415,17 @@ Definition sess_step_with (unw : list frame -> heap -> heap) (s : session) (i : 
       match query k (sheap s) (CTm (Var x), stop s) path with
       | (r, (fr, h, _)) => (mksess (unw fr h) (stop s), out_of (fun v => OOk (obs_of v)) r)
       end
+  | ISpine k e =>
+      (* the prepared main term is one thunk *)
+      match spine_with unlock_on_err unw (S k) k (sheap s ++ [new_cell (CTm e, stop s)]) (length (sheap s)) with
+      | (r, (h, _)) => (mksess h (stop s), out_of OData r)
+      end
   end.
 
+Definition sess_step_with := sess_step_gen true.
 Definition sess_step := sess_step_with unwind.
+(* the variant of eval_guarded that forgets to unlock on the error path *)
+Definition sess_step_nounlock := sess_step_gen false unwind.
 Definition sess_step_broken := sess_step_with unwind_broken.
 
 Fixpoint sess_run_with (unw : list frame -> heap -> heap) (s : session) (h : list input)
@@ -372,6 +440,15 @@ Fixpoint sess_run_with (unw : list frame -> heap -> heap) (s : session) (h : lis
 
 Definition sess_run := sess_run_with unwind.
 Definition sess_run_broken := sess_run_with unwind_broken.
+
+Fixpoint sess_run_nounlock (s : session) (h : list input) : session * list outcome :=
+  match h with
+  | [] => (s, [])
+  | i :: h' =>
+      let (s', o) := sess_step_nounlock s i in
+      let (s'', os) := sess_run_nounlock s' h' in
+      (s'', o :: os)
+  end.
 
 (* The top-level definitions of a history, oldest first. *)
 Fixpoint defs_of (h : list input) : list (string * tm) :=
